@@ -1,6 +1,6 @@
 (* C11 property theorems.  Model: Model.v (legacy = false is the code with fixes/01 and fixes/02). *)
 From OlaBase Require Import Bytes.
-From C11 Require Import Gen Model Session Lemmas Term3 E120 Complete2 SessInv SessThm Bound2 Wired2.
+From C11 Require Import Gen Model Session Lemmas Term3 E120 Complete2 SessInv SessThm Bound2 Wired2 Dead.
 Local Open Scope N_scope.
 
 (* Termination, exactly-once completion and absence of the modelled hazards (dangling parent range,
@@ -219,6 +219,30 @@ Theorem c11_complete_wired_or :
 Proof. exact wired_or_w. Qed.
 Print Assumptions c11_complete_wired_or.
 
+(* incremental discovery on the wired-OR line: previously known that still answer, plus new ones *)
+Theorem c11_incremental_wired :
+  forall (S1 : list N) (s0 : st) (M0 : list N),
+    NoDup S1 -> (forall x, In x S1 -> x < 281474976710655) -> N.of_nat (length S1) < 4294967296 ->
+    exists n e M, e_run S1 coll_or n (init true s0) M0 = (e, M) /\
+      pending e = PIdle /\ completions e = completions s0 + 1 /\ result e = Some (true, uids e) /\
+      (forall x, In x (uids e) <-> (In x (uids s0) /\ In x S1) \/ (In x S1 /\ ~ In x (uids s0))).
+Proof. exact incremental_wired_w. Qed.
+Print Assumptions c11_incremental_wired.
+
+(* departures only: [gone] is any list - the highest known UID, the lowest (also 0000:00000000), all of
+   them, none - and the connected set is the known UIDs without them: the incremental result is exactly
+   the known UIDs that stayed *)
+Theorem c11_incremental_leave :
+  forall (s0 : st) (gone M0 : list N),
+    NoDup (uids s0) -> (forall x, In x (uids s0) -> x < 281474976710655) ->
+    N.of_nat (length (uids s0)) < 4294967296 ->
+    let S1 := filter (fun x => negb (set_mem x gone)) (uids s0) in
+    exists n e M, e_run S1 coll_or n (init true s0) M0 = (e, M) /\
+      pending e = PIdle /\ completions e = completions s0 + 1 /\ result e = Some (true, uids e) /\
+      (forall x, In x (uids e) <-> In x (uids s0) /\ ~ In x gone).
+Proof. exact incremental_leave_w. Qed.
+Print Assumptions c11_incremental_leave.
+
 (* what survives from one run to the next: InitDiscovery keeps m_uids (incremental only), the completion
    counter of the model, and m_muting_uid / m_mute_attempts (both are overwritten before they are read:
    MaybeMuteNextDevice / BranchComplete set them - that part is not proved); everything else - range
@@ -230,6 +254,19 @@ Theorem c11_run_stateless :
     completions s = completions t -> init inc s = init inc t.
 Proof. exact run_stateless_w. Qed.
 Print Assumptions c11_run_stateless.
+
+(* m_muting_uid and m_mute_attempts are dead across runs: two agents that agree on m_uids (incremental
+   only) and the completion counter - whatever else earlier runs left, including these two fields - are
+   indistinguishable for every answer stream: same outstanding request, same result, same UID set *)
+Theorem c11_run_stateless_strong :
+  forall (inc : bool) (s t : st) (n : nat) (f : nat -> answer),
+    (inc = true -> uids s = uids t) -> completions s = completions t ->
+    let a := run false n f (init inc s) in
+    let b := run false n f (init inc t) in
+    pending b = pending a /\ result b = result a /\ uids b = uids a /\ completions b = completions a /\
+    call_of b = call_of a.
+Proof. exact stateless_strong_w. Qed.
+Print Assumptions c11_run_stateless_strong.
 
 (* the limits the statement refers to are the ones of the header *)
 Theorem c11_constants :
@@ -287,3 +324,13 @@ Example c11_phantom_example :
   (let '(e, M) := e_run [1; 4] coll_or 40 (init false idle0) [] in
    result e = Some (true, [1; 4]) /\ bad e = [5]).
 Proof. exact phantom_example. Qed.
+
+(* incremental runs at the boundaries, known = {0000:00000000, 5, 6, ffff:fffffffe}, wired-OR line *)
+Example c11_incremental_boundaries :
+  inc_result [0; 5; 6] known4 = (Some (true, [0; 5; 6]), 1) /\
+  inc_result [5; 6; 281474976710654] known4 = (Some (true, [5; 6; 281474976710654]), 1) /\
+  inc_result [] known4 = (Some (true, []), 1) /\
+  inc_result [1; 4; 281474976710653] known4 = (Some (true, [1; 4; 281474976710653]), 1) /\
+  inc_result [0; 1; 4; 281474976710654] idle0 = (Some (true, [0; 1; 4; 281474976710654]), 1) /\
+  inc_result [0; 5; 6; 281474976710654] known4 = (Some (true, [0; 5; 6; 281474976710654]), 1).
+Proof. exact incremental_boundary_examples. Qed.
